@@ -459,6 +459,16 @@ func Serve(opts Options) error {
 		return err
 	}
 	if opts.AppendOnly {
+		if _, err := os.Stat(opts.AppendFileName); os.IsNotExist(err) {
+			// An AOFSHRINK that was interrupted between its two renames leaves
+			// no live file; the complete log is still there as the backup.
+			if _, err := os.Stat(opts.AppendFileName + "-bak"); err == nil {
+				if err := os.Rename(opts.AppendFileName+"-bak",
+					opts.AppendFileName); err != nil {
+					return err
+				}
+			}
+		}
 		f, err := os.OpenFile(opts.AppendFileName, os.O_CREATE|os.O_RDWR, 0600)
 		if err != nil {
 			return err
